@@ -44,7 +44,7 @@ func clusterCheckAlso(prop, tier string, plans []plan, need []string, assumption
 			fmt.Println("INFRA: unknown suite", pl.suite)
 			return 2
 		}
-		res, err := explore.RunSuite(s, explore.Options{Deadline: time.Now().Add(time.Duration(pl.secs) * time.Second)})
+		res, err := explore.RunSuite(s, explore.Options{Deadline: time.Now().Add(time.Duration(pl.secs) * time.Second), Props: append([]string{prop}, also...)})
 		if err != nil {
 			fmt.Println("INFRA:", err)
 			return 2
@@ -134,24 +134,26 @@ func eventStrings(ev []sim.Event) []string {
 	return s
 }
 
-// runPath executes a path on a fresh instance and returns the violations met
-// at the first violating step.
+// runPath executes a path on a fresh instance and returns every violation
+// met on the way (exploration continues beyond violations of properties other
+// than the checked one, so a path may cross several).
 func runPath(s *explore.Suite, events []sim.Event) ([]*common.Violation, error) {
 	x, v := explore.NewExec(s)
 	defer x.Close()
+	var all []*common.Violation
 	if v != nil {
-		return append([]*common.Violation(nil), x.All...), nil
+		all = append(all, x.All...)
 	}
 	for _, e := range events {
 		v, err := x.Apply(e)
 		if err != nil {
-			return nil, err
+			return all, err
 		}
 		if v != nil {
-			return append([]*common.Violation(nil), x.All...), nil
+			all = append(all, append([]*common.Violation(nil), x.All...)...)
 		}
 	}
-	return nil, nil
+	return all, nil
 }
 
 func confirm(s *explore.Suite, f *explore.Found) bool {
@@ -193,23 +195,26 @@ func replay(path string) int {
 		}
 		x, v := explore.NewExec(s)
 		defer x.Close()
+		var met []*common.Violation
+		if v != nil {
+			met = append(met, x.All...)
+		}
 		for i, e := range events {
-			if v != nil {
-				break
-			}
 			fmt.Printf("%3d %s\n", i, e)
-			var err error
-			v, err = x.Apply(e)
+			v, err := x.Apply(e)
 			if err != nil {
 				fmt.Println("INFRA: replay diverged:", err)
 				return 2
+			}
+			if v != nil {
+				met = append(met, append([]*common.Violation(nil), x.All...)...)
 			}
 		}
 		if os.Getenv("VERIF_DUMP") != "" {
 			fmt.Print(x.C.Dump())
 		}
 		code := 0
-		for _, w := range x.All {
+		for _, w := range met {
 			if w.Property == r.Property {
 				fmt.Printf("VIOLATION property=%s replay=%s signature=%q detail=%q\n", w.Property, path, w.Signature, w.Detail)
 				code = 1
